@@ -16,6 +16,19 @@ import props_hash
 import tlcrun
 
 HELPER_SOURCE = '''
+from dataclasses import dataclass
+
+
+@dataclass
+class Rec2:
+    a: int
+    b: int = 22
+
+
+def h_rec(v):
+    return v.a + v.b
+
+
 def h_id(a):
     return a
 
